@@ -1,7 +1,67 @@
-import TjdModel.Agg.Others
+/-
+  C10 — The order of the objectives does not matter.
+
+  PROPERTY THEOREMS ONLY (statements fixed; helper lemmas in TjdLemmas/EquivLemmas.lean).
+  `permV p` reorders rows / vectors by the index list `p`.  MGDA and Krum (argmin / top-k tie breaking by
+  index) and CAGrad (conic solver) are covered by the check only (property excludes exact ties).
+-/
+import Mathlib.Algebra.Order.Field.Basic
+import TjdModel.Agg.Spec2
+import TjdLemmas.EquivLemmas
+import TjdProps.C03
+import TjdProps.C16
 namespace Tjd.Props.C10
 open Tjd Tjd.Agg
 
-theorem placeholder_rejects (k : AggKind) (f : Bool) : rejects k [] f = true := by simp [rejects]
+variable {α : Type} [Field α] [LinearOrder α] [IsStrictOrderedRing α]
+
+/-- permuting the rows together with the weights leaves the combination unchanged (Mean, Sum, Constant
+    with its weight vector permuted along, and the last step of every weighted aggregator) -/
+theorem combine_row_perm [Inhabited α] (J : Mat α) (m n : Nat) (hJ : MatWF J m n) (w : Vec α)
+    (hw : w.length = m) (p : List Nat) (hp : p.Perm (List.range m)) :
+    combine n (permV p J) (permV p w) = combine n J w := by
+  sorry
+
+/-- the Gramian of the permuted matrix is the Gramian with rows and columns permuted -/
+theorem gram_row_perm [Inhabited α] (J : Mat α) (m n : Nat) (hJ : MatWF J m n) (p : List Nat)
+    (hp : ∀ i ∈ p, i < m) :
+    gram (permV p J) = permV p ((gram J).map (permV p)) := by
+  sorry
+
+/-- a minimiser of the projection QP stays a minimiser after permuting everything consistently -/
+theorem isQPMin_perm [Inhabited α] (G : Mat α) (m : Nat) (hG : SymmSquare G m) (u w : Vec α)
+    (hu : u.length = m) (p : List Nat) (hp : p.Perm (List.range m)) (h : IsQPMin G u w) :
+    IsQPMin (permV p (G.map (permV p))) (permV p u) (permV p w) := by
+  sorry
+
+/-- DualProj: permuting the rows and the preference vector together does not change the result -/
+theorem dualproj_row_perm [Inhabited α] (J : Mat α) (m n : Nat) (hJ : MatWF J m n)
+    (s normEps regEps : α) (hre : 0 < regEps) (u : Vec α) (hu : u.length = m) (p : List Nat)
+    (hp : p.Perm (List.range m)) (w w' : Vec α) (mg mg' : α)
+    (h : dualprojWeights J s normEps regEps u = some (w, mg))
+    (h' : dualprojWeights (permV p J) s normEps regEps (permV p u) = some (w', mg')) :
+    combine n (permV p J) w' = combine n J w := by
+  sorry
+
+/-- UPGrad likewise -/
+theorem upgrad_row_perm [Inhabited α] (J : Mat α) (m n : Nat) (hJ : MatWF J m n)
+    (s normEps regEps : α) (hre : 0 < regEps) (u : Vec α) (hu : u.length = m) (p : List Nat)
+    (hp : p.Perm (List.range m)) (w w' : Vec α) (mg mg' : α)
+    (h : upgradWeights J s normEps regEps u = some (w, mg))
+    (h' : upgradWeights (permV p J) s normEps regEps (permV p u) = some (w', mg')) :
+    combine n (permV p J) w' = combine n J w := by
+  sorry
+
+/-- TrimmedMean: sorting forgets the order of the rows -/
+theorem trimmedMean_row_perm [Inhabited α] (b m n : Nat) (J : Mat α) (hJ : MatWF J m n)
+    (p : List Nat) (hp : p.Perm (List.range m)) :
+    trimmedMean b n (permV p J) = trimmedMean b n J := by
+  sorry
+
+/-- GradDrop (same uniform sample, leak vector permuted along): finite sums commute -/
+theorem graddrop_row_perm [Inhabited α] (m n : Nat) (J : Mat α) (hJ : MatWF J m n) (leak U : Vec α)
+    (hl : leak.length = m) (p : List Nat) (hp : p.Perm (List.range m)) :
+    graddrop (permV p J) (permV p leak) U n = graddrop J leak U n := by
+  sorry
 
 end Tjd.Props.C10
